@@ -1102,7 +1102,7 @@ def build(tier, seed):
     obs.append(Ob("canary.faces", ob_faces_canary, (), "P", expect=REFUTED))
     obs.append(Ob("canary.motion", ob_motion_canary, (), "P", expect=REFUTED))
     return dict(
-        obs=obs, level="proof", min_obligations=60,
+        obs=obs, level="other", min_obligations=60,
         explanation=("Element tables (origin, faces, surfaces) are decided exactly from the extracted element files; the real normal, jacobian and measure code is run on exact "
                      "rational / symbolic coordinates (every affine image with a symbolic matrix, both orientations; general QUAD4 with symbolic nodes); the rigid motions of "
                      "Geoms are decided from the AST as isometries. gmsh meshes, point location (KD-tree, least squares) and the projector are outside the exact domain and are "
